@@ -84,6 +84,8 @@ pub enum RErr {
     Immutable,
     DivZero,
     NegativeLength,
+    /// the text of the form is not a well-formed expression / definition (raw forms of the file and session checks)
+    Syntax,
     /// "it is an error" situations of the list library (list too short ...): any error is acceptable
     Other(String),
     /// the program left the class the model covers (integers beyond i32, inexact arithmetic ...): not judged
@@ -103,6 +105,7 @@ impl RErr {
             RErr::Immutable => tag == "Logic::RequiresMutable",
             RErr::DivZero => tag == "Logic::DivisionByZero",
             RErr::NegativeLength => tag == "Logic::NegativeLength",
+            RErr::Syntax => tag.starts_with("Syntax::"),
             RErr::Other(_) => tag.starts_with("Logic::"),
             RErr::OutOfClass(_) | RErr::Fuel => true,
         }
@@ -208,6 +211,7 @@ impl Machine {
         match d {
             Datum::Int(i) => RVal::Num(RNum::int(*i as i128)),
             Datum::Ratio(a, b) => RVal::Num(ex(*a as i128, *b as i128)),
+            Datum::Real(x) => RVal::Num(RNum::Re(x.parse::<f32>().unwrap_or(f32::NAN))),
             Datum::Bool(b) => RVal::Bool(*b),
             Datum::Sym(s) => RVal::Sym(s.clone()),
             Datum::Str(s) => RVal::Str(s.clone()),
@@ -308,6 +312,19 @@ impl Machine {
                         Err(e) => Err(e),
                     },
                     Form::Expr(e) => self.eval(e, &frame).map(|_| ()),
+                    // a further import declaration between two parts of the body
+                    Form::Import(specs) => {
+                        let mut r = Ok(());
+                        for sp in specs {
+                            if let Err(e) = self.import_into(&frame, sp) {
+                                r = Err(e);
+                                break;
+                            }
+                        }
+                        r
+                    }
+                    // a syntax definition private to the library (the generated bodies do not use it themselves)
+                    Form::Raw(t) if t.starts_with("(define-syntax") => Ok(()),
                     _ => Err(RErr::OutOfClass("library body form".into())),
                 };
                 if let Err(e) = r {
